@@ -11,24 +11,6 @@ import Mathlib.Data.List.Nodup
 namespace BM.C12
 open BM
 
-/-- clamped bounds of a positive-step slice lie in `[0, n]`. -/
-theorem sliceIndices_pos_bounds (s e : Option Int) (st : Int) (hst : 0 < st) (n : Nat) :
-    0 ≤ (Py.sliceIndices s e st n).1 ∧ (Py.sliceIndices s e st n).1 ≤ n ∧
-    0 ≤ (Py.sliceIndices s e st n).2.1 ∧ (Py.sliceIndices s e st n).2.1 ≤ n := by
-  have h : ¬ st < 0 := by omega
-  unfold Py.sliceIndices
-  cases s <;> cases e <;> simp only [h, if_false] <;> (try split) <;> (try split) <;> omega
-
-/-- re-normalising in-range bounds is the identity (up to the upper clamp of the start). -/
-theorem sliceIndices_some_nonneg (a b st : Int) (hst : 0 < st) (n : Nat) (ha : 0 ≤ a) (hb : 0 ≤ b) (hbn : b ≤ n) :
-    Py.sliceIndices (some a) (some b) st n = (min a n, b, st) := by
-  have h : ¬ st < 0 := by omega
-  have h1 : ¬ a < 0 := by omega
-  have h2 : ¬ b < 0 := by omega
-  simp only [Py.sliceIndices, h, h1, h2, if_false]
-  congr 2
-  omega
-
 theorem reverse_range_map (m : Nat) : (List.range m).reverse = (List.range m).map (fun k => m - 1 - k) := by
   apply List.ext_getElem?
   intro i
@@ -36,67 +18,141 @@ theorem reverse_range_map (m : Nat) : (List.range m).reverse = (List.range m).ma
   · simp [h]
   · simp [h]
 
-/-- The index arithmetic of `offset_slice_indices_lsb0` for a positive step. -/
-theorem rangeList_mirror (s e st : Int) (n : Nat) (hst : 0 < st) (hs0 : 0 ≤ s) (_hsn : s ≤ n) (he0 : 0 ≤ e) (_hen : e ≤ n) :
-    Py.rangeList (min ((n : Int) - (s + (e - 1 - s) / st * st) - 1) n) ((n : Int) - s) st
-      = (Py.rangeList s e st).reverse.map fun i => (n : Int) - 1 - i := by
-  by_cases hse : s < e
-  · -- non-empty
-    have hq0 : 0 ≤ (e - 1 - s) / st := Int.ediv_nonneg (by omega) (by omega)
-    have hqle : (e - 1 - s) / st * st ≤ e - 1 - s := Int.ediv_mul_le _ (by omega)
-    set q := (e - 1 - s) / st with hq
-    have hmin : min ((n : Int) - (s + q * st) - 1) n = (n : Int) - (s + q * st) - 1 := by
-      have : 0 ≤ q * st := Int.mul_nonneg hq0 (by omega)
-      omega
-    rw [hmin]
-    have hcnt : Py.rangeLen s e st = q.toNat + 1 := by
-      rw [Py.rangeLen]; simp only [hst, hse, if_true]
-      have : e - s - 1 = e - 1 - s := by ring
-      rw [this]; omega
-    have hcnt' : Py.rangeLen ((n : Int) - (s + q * st) - 1) ((n : Int) - s) st = q.toNat + 1 := by
-      rw [Py.rangeLen]; simp only [hst, if_true]
-      have h3 : 0 ≤ q * st := Int.mul_nonneg hq0 (by omega)
-      have hlt : (n : Int) - (s + q * st) - 1 < (n : Int) - s := by omega
-      simp only [hlt, if_true]
-      have : (n : Int) - s - ((n : Int) - (s + q * st) - 1) - 1 = q * st := by ring
-      rw [this, Int.mul_ediv_cancel _ (by omega : st ≠ 0)]
-      omega
-    unfold Py.rangeList
-    rw [hcnt, hcnt', ← List.map_reverse, reverse_range_map, List.map_map, List.map_map]
-    apply List.map_congr_left
-    intro k hk
-    simp only [List.mem_range] at hk
-    simp only [Function.comp]
-    have hcast : ((q.toNat + 1 - 1 - k : Nat) : Int) = q - k := by omega
-    rw [hcast]
-    ring
-  · -- empty on both sides
-    have h1 : Py.rangeLen s e st = 0 := by
-      rw [Py.rangeLen]; simp only [hst, if_true, hse, if_false]
-    have hneg : (e - 1 - s) / st < 0 := Int.ediv_neg_of_neg_of_pos (by omega) hst
-    have hq : (e - 1 - s) / st * st ≤ -1 := by
-      have : (e - 1 - s) / st ≤ -1 := by omega
-      nlinarith
-    have h2 : Py.rangeLen (min ((n : Int) - (s + (e - 1 - s) / st * st) - 1) n) ((n : Int) - s) st = 0 := by
-      rw [Py.rangeLen]; simp only [hst, if_true]
-      have : ¬ (min ((n : Int) - (s + (e - 1 - s) / st * st) - 1) n < (n : Int) - s) := by omega
-      simp only [this, if_false]
-    simp [Py.rangeList, h1, h2]
-
-
 /-- the step a key stands for (`None` = 1). -/
 abbrev stepOf (k : Key) : Int := k.step.getD 1
+/-- clamped start / stop of a key (`slice.indices`). -/
+abbrev nStart (k : Key) (n : Nat) : Int := (Py.sliceIndices k.start k.stop (stepOf k) n).1
+abbrev nStop (k : Key) (n : Nat) : Int := (Py.sliceIndices k.start k.stop (stepOf k) n).2.1
+/-- number of visited positions. -/
+abbrev nCount (k : Key) (n : Nat) : Nat := Py.rangeLen (nStart k n) (nStop k n) (stepOf k)
 
-theorem stepOf_pos (k : Key) (hpos : negStep k = false) (h0 : k.step ≠ some 0) : 0 < stepOf k := by
-  unfold stepOf negStep at *
-  cases h : k.step with
-  | none => simp
-  | some c =>
-    rw [h] at hpos h0
-    simp only [decide_eq_false_iff_not, Int.not_lt] at hpos
-    have : c ≠ 0 := fun hc => h0 (by rw [hc])
-    simp only [Option.getD_some]
+theorem sliceIndices_pos_bounds (s e : Option Int) (st : Int) (hst : 0 < st) (n : Nat) :
+    0 ≤ (Py.sliceIndices s e st n).1 ∧ (Py.sliceIndices s e st n).1 ≤ n ∧
+    0 ≤ (Py.sliceIndices s e st n).2.1 ∧ (Py.sliceIndices s e st n).2.1 ≤ n := by
+  have h : ¬ st < 0 := by omega
+  unfold Py.sliceIndices
+  cases s <;> cases e <;> simp only [h, if_false] <;> (try split) <;> (try split) <;> omega
+
+/-- the key `offset_slice_indices_lsb0` builds from the clamped start `s`, the count and the step. -/
+def mirKeyOf (s : Int) (cnt : Nat) (st : Int) (n : Nat) (step : Option Int) : Key :=
+  if cnt = 0 then
+    (if st > 0 then ⟨some ((n : Int) - s), some ((n : Int) - s), step⟩ else ⟨some 0, some 0, step⟩)
+  else
+    (if st > 0 then ⟨some ((n : Int) - (s + ((cnt : Int) - 1) * st) - 1), some ((n : Int) - s), step⟩
+     else ⟨some ((n : Int) - (s + ((cnt : Int) - 1) * st) - 1),
+           if (n : Int) - s - 2 ≥ 0 then some ((n : Int) - s - 2) else none, step⟩)
+
+theorem offsetSliceLsb0_eq (k : Key) (n : Nat) (hst : stepOf k ≠ 0) :
+    offsetSliceLsb0 k n = .ok (mirKeyOf (nStart k n) (nCount k n) (stepOf k) n k.step) := by
+  unfold offsetSliceLsb0 mirKeyOf
+  simp only [hst, if_false]
+  split <;> split <;> rfl
+
+/-- bounds, after the clamping of the slicing that uses the key, of the mirrored slice:
+    start `n - 1 - last`, and a stop one step beyond `n - 1 - first`. -/
+theorem mirKeyOf_empty (s : Int) (st : Int) (n : Nat) (step : Option Int) (hst : st ≠ 0)
+    (hs : st > 0 → 0 ≤ s ∧ s ≤ n) :
+    Py.rangeLen (Py.sliceIndices (mirKeyOf s 0 st n step).start (mirKeyOf s 0 st n step).stop st n).1
+      (Py.sliceIndices (mirKeyOf s 0 st n step).start (mirKeyOf s 0 st n step).stop st n).2.1 st = 0 := by
+  unfold mirKeyOf
+  simp only [if_true]
+  by_cases hp : st > 0
+  · have hn : ¬ st < 0 := by omega
+    have := hs hp
+    have h1 : ¬ ((n : Int) - s < 0) := by omega
+    simp only [hp, if_true, Py.sliceIndices, hn, if_false, h1, Py.rangeLen]
+    simp
+  · have hneg : st < 0 := by omega
+    simp only [hp, if_false, Py.sliceIndices, hneg, if_true, Py.rangeLen]
+    simp
+
+theorem mirKeyOf_nonempty (s : Int) (cnt : Nat) (st : Int) (n : Nat) (step : Option Int) (hst : st ≠ 0)
+    (hc : cnt ≠ 0) (hf0 : 0 ≤ s) (hfn : s < n)
+    (hl0 : 0 ≤ s + ((cnt : Int) - 1) * st) (hln : s + ((cnt : Int) - 1) * st < n) :
+    (Py.sliceIndices (mirKeyOf s cnt st n step).start (mirKeyOf s cnt st n step).stop st n).1
+      = (n : Int) - 1 - (s + ((cnt : Int) - 1) * st) ∧
+    (Py.sliceIndices (mirKeyOf s cnt st n step).start (mirKeyOf s cnt st n step).stop st n).2.1
+      = (if st > 0 then (n : Int) - s else (n : Int) - s - 2) := by
+  unfold mirKeyOf
+  simp only [hc, if_false]
+  generalize s + ((cnt : Int) - 1) * st = last at *
+  by_cases hp : st > 0
+  · have hn : ¬ st < 0 := by omega
+    have h1 : ¬ ((n : Int) - last - 1 < 0) := by omega
+    have h2 : ¬ ((n : Int) - s < 0) := by omega
+    simp only [hp, if_true, Py.sliceIndices, hn, if_false, h1, h2]
     omega
+  · have hneg : st < 0 := by omega
+    have h1 : ¬ ((n : Int) - last - 1 < 0) := by omega
+    simp only [hp, if_false]
+    by_cases h3 : (n : Int) - s - 2 ≥ 0
+    · have h4 : ¬ ((n : Int) - s - 2 < 0) := by omega
+      simp only [h3, if_true, Py.sliceIndices, hneg, h1, h4, if_false]
+      omega
+    · simp only [h3, if_false, Py.sliceIndices, hneg, if_true, h1]
+      omega
+
+/-- THE index lemma: the slice computed by `offset_slice_indices_lsb0` visits the mirror images `n - 1 - i`
+    of the positions the original slice visits, in the opposite order — for every non-zero step. -/
+theorem mirror_rangeList (k : Key) (n : Nat) (hst : stepOf k ≠ 0) :
+    Py.rangeList
+        (Py.sliceIndices (mirKeyOf (nStart k n) (nCount k n) (stepOf k) n k.step).start
+          (mirKeyOf (nStart k n) (nCount k n) (stepOf k) n k.step).stop (stepOf k) n).1
+        (Py.sliceIndices (mirKeyOf (nStart k n) (nCount k n) (stepOf k) n k.step).start
+          (mirKeyOf (nStart k n) (nCount k n) (stepOf k) n k.step).stop (stepOf k) n).2.1 (stepOf k)
+      = (Py.rangeList (nStart k n) (nStop k n) (stepOf k)).reverse.map fun i => (n : Int) - 1 - i := by
+  by_cases hc : nCount k n = 0
+  · have hpb : stepOf k > 0 → 0 ≤ nStart k n ∧ nStart k n ≤ n := fun hp =>
+      ⟨(sliceIndices_pos_bounds k.start k.stop (stepOf k) hp n).1, (sliceIndices_pos_bounds k.start k.stop (stepOf k) hp n).2.1⟩
+    have h1 := mirKeyOf_empty (nStart k n) (stepOf k) n k.step hst hpb
+    rw [hc]
+    unfold Py.rangeList
+    rw [h1]
+    have : Py.rangeLen (nStart k n) (nStop k n) (stepOf k) = 0 := hc
+    rw [this]
+    rfl
+  · have hfirst := C01.sliceIndices_bounds k.start k.stop (stepOf k) hst n 0 (by unfold nCount nStart nStop at hc; omega)
+    have hlast := C01.sliceIndices_bounds k.start k.stop (stepOf k) hst n (nCount k n - 1) (by unfold nCount nStart nStop at hc ⊢; omega)
+    have hcast : (((nCount k n - 1 : Nat)) : Int) = (nCount k n : Int) - 1 := by omega
+    rw [hcast] at hlast
+    simp only [Nat.cast_zero, Int.zero_mul, Int.add_zero] at hfirst
+    obtain ⟨e1, e2⟩ := mirKeyOf_nonempty (nStart k n) (nCount k n) (stepOf k) n k.step hst hc hfirst.1 hfirst.2 hlast.1 hlast.2
+    rw [e1, e2]
+    generalize hcnt : nCount k n = cnt at *
+    have hcnt' : Py.rangeLen (nStart k n) (nStop k n) (stepOf k) = cnt := hcnt
+    generalize nStart k n = s at *
+    generalize stepOf k = st at *
+    -- the mirrored range has the same number of elements
+    have hlen : Py.rangeLen ((n : Int) - 1 - (s + ((cnt : Int) - 1) * st)) (if st > 0 then (n : Int) - s else (n : Int) - s - 2) st = cnt := by
+      unfold Py.rangeLen
+      by_cases hp : st > 0
+      · have h3 : 0 ≤ ((cnt : Int) - 1) * st := Int.mul_nonneg (by omega) (by omega)
+        have hlt : (n : Int) - 1 - (s + ((cnt : Int) - 1) * st) < (n : Int) - s := by omega
+        simp only [hp, if_true, hlt]
+        have : (n : Int) - s - ((n : Int) - 1 - (s + ((cnt : Int) - 1) * st)) - 1 = ((cnt : Int) - 1) * st := by ring
+        rw [this, Int.mul_ediv_cancel _ hst]
+        omega
+      · have hneg : st < 0 := by omega
+        have h3 : ((cnt : Int) - 1) * st ≤ 0 := Int.mul_nonpos_of_nonneg_of_nonpos (by omega) (by omega)
+        have hlt : (n : Int) - s - 2 < (n : Int) - 1 - (s + ((cnt : Int) - 1) * st) := by omega
+        simp only [hp, if_false, hlt, if_true]
+        have : (n : Int) - 1 - (s + ((cnt : Int) - 1) * st) - ((n : Int) - s - 2) - 1 = ((cnt : Int) - 1) * (-st) := by ring
+        rw [this, Int.mul_ediv_cancel _ (by omega : -st ≠ 0)]
+        omega
+    unfold Py.rangeList
+    rw [hlen, hcnt', ← List.map_reverse, reverse_range_map, List.map_map, List.map_map]
+    apply List.map_congr_left
+    intro j hj
+    simp only [List.mem_range] at hj
+    simp only [Function.comp]
+    have hc2 : ((cnt - 1 - j : Nat) : Int) = (cnt : Int) - 1 - j := by omega
+    rw [hc2]
+    ring
+
+
+theorem mirKeyOf_step (s : Int) (cnt : Nat) (st : Int) (n : Nat) (step : Option Int) :
+    (mirKeyOf s cnt st n step).step = step := by
+  unfold mirKeyOf; split <;> split <;> rfl
 
 theorem getSlice_opt {α} (l : List α) (a b c : Option Int) (hc : c.getD 1 ≠ 0) :
     Py.getSlice l a b c = .ok ((Py.rangeList (Py.sliceIndices a b (c.getD 1) l.length).1
@@ -104,60 +160,13 @@ theorem getSlice_opt {α} (l : List α) (a b c : Option Int) (hc : c.getD 1 ≠ 
   simp only [Py.getSlice, hc, if_false]
   rfl
 
-/-- start, stop of the mirrored slice, before clamping. -/
-def mirStart (k : Key) (n : Nat) : Int :=
-  (n : Int) - ((Py.sliceIndices k.start k.stop (stepOf k) n).1 +
-    ((Py.sliceIndices k.start k.stop (stepOf k) n).2.1 - 1 - (Py.sliceIndices k.start k.stop (stepOf k) n).1) / stepOf k * stepOf k) - 1
-def mirStop (k : Key) (n : Nat) : Int := (n : Int) - (Py.sliceIndices k.start k.stop (stepOf k) n).1
-
-theorem offsetSliceLsb0_pos (k : Key) (n : Nat) (hpos : negStep k = false) (h0 : k.step ≠ some 0) :
-    offsetSliceLsb0 k n = .ok ⟨some (mirStart k n), some (mirStop k n), k.step⟩ := by
-  unfold mirStart mirStop
-  have hst := stepOf_pos k hpos h0
-  unfold stepOf at *
-  unfold offsetSliceLsb0 indices
-  cases h : k.step with
-  | none => simp
-  | some c =>
-    rw [h] at hst h0
-    simp only [Option.getD_some] at hst ⊢
-    have h1 : ¬ c < 0 := by omega
-    simp only [gt_iff_lt, hst, if_true, h1, if_false]
-
-
-/-- the last visited element lies below `n` (also for an empty range). -/
-theorem mirStart_nonneg (k : Key) (n : Nat) (hst : 0 < stepOf k) : 0 ≤ mirStart k n := by
-  have hb := sliceIndices_pos_bounds k.start k.stop (stepOf k) hst n
-  unfold mirStart
-  generalize (Py.sliceIndices k.start k.stop (stepOf k) n).1 = s at *
-  generalize (Py.sliceIndices k.start k.stop (stepOf k) n).2.1 = e at *
-  generalize stepOf k = st at *
-  have hqle : (e - 1 - s) / st * st ≤ e - 1 - s := Int.ediv_mul_le _ (by omega)
-  omega
-
-theorem mirror_renorm (k : Key) (n : Nat) (hst : 0 < stepOf k) :
-    Py.sliceIndices (some (mirStart k n)) (some (mirStop k n)) (stepOf k) n
-      = (min (mirStart k n) n, mirStop k n, stepOf k) := by
-  have hb := sliceIndices_pos_bounds k.start k.stop (stepOf k) hst n
-  apply sliceIndices_some_nonneg _ _ _ hst n (mirStart_nonneg k n hst)
-  · unfold mirStop; omega
-  · unfold mirStop; omega
-
-theorem mirror_rangeList (k : Key) (n : Nat) (hst : 0 < stepOf k) :
-    Py.rangeList (min (mirStart k n) n) (mirStop k n) (stepOf k)
-      = (Py.rangeList (Py.sliceIndices k.start k.stop (stepOf k) n).1
-          (Py.sliceIndices k.start k.stop (stepOf k) n).2.1 (stepOf k)).reverse.map fun i => (n : Int) - 1 - i := by
-  have hb := sliceIndices_pos_bounds k.start k.stop (stepOf k) hst n
-  exact rangeList_mirror _ _ _ n hst hb.1 hb.2.1 hb.2.2.1 hb.2.2.2
-
-/-- members of a normalised positive-step range are valid positions. -/
-theorem mem_rangeList_bounds (k : Key) (n : Nat) (hst : 0 < stepOf k) (i : Int)
-    (hi : i ∈ Py.rangeList (Py.sliceIndices k.start k.stop (stepOf k) n).1
-          (Py.sliceIndices k.start k.stop (stepOf k) n).2.1 (stepOf k)) : 0 ≤ i ∧ i < n := by
+/-- members of a normalised range are valid positions. -/
+theorem mem_rangeList_bounds (k : Key) (n : Nat) (hst : stepOf k ≠ 0) (i : Int)
+    (hi : i ∈ Py.rangeList (nStart k n) (nStop k n) (stepOf k)) : 0 ≤ i ∧ i < n := by
   unfold Py.rangeList at hi
   simp only [List.mem_map, List.mem_range] at hi
   obtain ⟨j, hj, rfl⟩ := hi
-  exact C01.sliceIndices_bounds k.start k.stop (stepOf k) (by omega) n j hj
+  exact C01.sliceIndices_bounds k.start k.stop (stepOf k) hst n j hj
 
 theorem getElem?_reverse_int {α} (l : List α) (i : Int) (h0 : 0 ≤ i) (hn : i < l.length) :
     l.reverse[i.toNat]? = l[((l.length : Int) - 1 - i).toNat]? := by
@@ -165,26 +174,32 @@ theorem getElem?_reverse_int {α} (l : List α) (i : Int) (h0 : 0 ≤ i) (hn : i
   congr 1
   omega
 
-theorem getslice_mirror (l : Bits) (k : Key) (hpos : negStep k = false) (h0 : k.step ≠ some 0) :
-    getsliceWithstep .lsb0 l k = (getsliceWithstep .msb0 l.reverse k).map List.reverse := by
-  have hst := stepOf_pos k hpos h0
-  have hne : k.step.getD 1 ≠ 0 := by unfold stepOf at hst; omega
-  simp only [getsliceWithstep, offsetSliceLsb0_pos k l.length hpos h0, pyGet]
-  rw [getSlice_opt l _ _ _ hne, getSlice_opt l.reverse _ _ _ hne]
-  simp only [Except.map, List.length_reverse]
-  congr 1
-  have hr := mirror_renorm k l.length hst
-  unfold stepOf at hr hst
-  rw [hr]
-  simp only []
-  rw [mirror_rangeList k l.length hst, List.filterMap_map, ← List.filterMap_reverse]
-  apply List.filterMap_congr
-  intro i hi
-  rw [List.mem_reverse] at hi
-  have hb := mem_rangeList_bounds k l.length hst i hi
-  simp only [Function.comp]
-  rw [getElem?_reverse_int l i hb.1 hb.2]
+theorem offsetSliceLsb0_step_zero (k : Key) (n : Nat) (hst : stepOf k = 0) :
+    offsetSliceLsb0 k n = .error .value := by
+  unfold offsetSliceLsb0
+  have : k.step.getD 1 = 0 := hst
+  simp [this]
 
+theorem getslice_mirror (l : Bits) (k : Key) :
+    getsliceWithstep .lsb0 l k = (getsliceWithstep .msb0 l.reverse k).map List.reverse := by
+  by_cases hst : stepOf k = 0
+  · have h0 : k.step.getD 1 = 0 := hst
+    simp only [getsliceWithstep, offsetSliceLsb0_step_zero k l.length hst, pyGet, Py.getSlice, h0, if_true]
+    rfl
+  · have hne : k.step.getD 1 ≠ 0 := hst
+    simp only [getsliceWithstep, offsetSliceLsb0_eq k l.length hst, pyGet, mirKeyOf_step]
+    rw [getSlice_opt l _ _ _ hne, getSlice_opt l.reverse _ _ _ hne]
+    simp only [Except.map, List.length_reverse]
+    congr 1
+    have hm := mirror_rangeList k l.length hst
+    unfold stepOf nStart nStop nCount at hm
+    rw [hm, List.filterMap_map, ← List.filterMap_reverse]
+    apply List.filterMap_congr
+    intro i hi
+    rw [List.mem_reverse] at hi
+    have hb := mem_rangeList_bounds k l.length hst i hi
+    simp only [Function.comp]
+    rw [getElem?_reverse_int l i hb.1 hb.2]
 
 theorem reverse_filterMap_range {β} (n : Nat) (f : Nat → Option β) :
     ((List.range n).filterMap f).reverse = (List.range n).filterMap (fun j => f (n - 1 - j)) := by
@@ -208,31 +223,30 @@ theorem getElem?_reverse_nat {α} (l : List α) (j : Nat) (hj : j < l.length) :
   congr 1
   omega
 
-theorem delslice_mirror (l : Bits) (k : Key) (hpos : negStep k = false) (h0 : k.step ≠ some 0) :
+theorem delslice_mirror (l : Bits) (k : Key) :
     delitemSlice .lsb0 l k = (delitemSlice .msb0 l.reverse k).map List.reverse := by
-  have hst := stepOf_pos k hpos h0
-  have hne : k.step.getD 1 ≠ 0 := by unfold stepOf at hst; omega
-  simp only [delitemSlice, offsetSliceLsb0_pos k l.length hpos h0, pyDel, hne, if_false,
-    Except.map, List.length_reverse]
-  congr 1
-  have hr := mirror_renorm k l.length hst
-  unfold stepOf at hr hst
-  rw [hr]
-  simp only []
-  rw [mirror_rangeList k l.length hst, reverse_filterMap_range]
-  apply List.filterMap_congr
-  intro j hj
-  simp only [List.mem_range] at hj
-  have hm := mem_mirror_iff (Py.rangeList (Py.sliceIndices k.start k.stop (stepOf k) l.length).1
-          (Py.sliceIndices k.start k.stop (stepOf k) l.length).2.1 (stepOf k)) l.length j hj
-  unfold stepOf at hm
-  by_cases hin : ((l.length - 1 - j : Nat) : Int) ∈ Py.rangeList (Py.sliceIndices k.start k.stop (k.step.getD 1) l.length).1
-          (Py.sliceIndices k.start k.stop (k.step.getD 1) l.length).2.1 (k.step.getD 1)
-  · simp only [hm.mpr hin, hin, if_true]
-  · have : ¬ _ := fun h => hin (hm.mp h)
-    simp only [this, hin, if_false]
-    exact (getElem?_reverse_nat l j hj).symm
-
+  by_cases hst : stepOf k = 0
+  · have h0 : k.step.getD 1 = 0 := hst
+    simp only [delitemSlice, offsetSliceLsb0_step_zero k l.length hst, pyDel, h0, if_true]
+    rfl
+  · have hne : k.step.getD 1 ≠ 0 := hst
+    simp only [delitemSlice, offsetSliceLsb0_eq k l.length hst, pyDel, mirKeyOf_step, hne, if_false,
+      Except.map, List.length_reverse]
+    congr 1
+    have hm := mirror_rangeList k l.length hst
+    unfold stepOf nStart nStop nCount at hm
+    rw [hm, reverse_filterMap_range]
+    apply List.filterMap_congr
+    intro j hj
+    simp only [List.mem_range] at hj
+    have hmem := mem_mirror_iff (Py.rangeList (nStart k l.length) (nStop k l.length) (stepOf k)) l.length j hj
+    unfold stepOf nStart nStop at hmem
+    by_cases hin : ((l.length - 1 - j : Nat) : Int) ∈ Py.rangeList (Py.sliceIndices k.start k.stop (k.step.getD 1) l.length).1
+            (Py.sliceIndices k.start k.stop (k.step.getD 1) l.length).2.1 (k.step.getD 1)
+    · simp only [hmem.mpr hin, hin, if_true]
+    · have : ¬ _ := fun h => hin (hmem.mp h)
+      simp only [this, hin, if_false]
+      exact (getElem?_reverse_nat l j hj).symm
 
 /-- lookup through an injective renaming of the keys. -/
 theorem lookup_map_key {β} (φ : Int → Int) (hφ : Function.Injective φ) (A : List (Int × β)) (a : Int) :
@@ -300,66 +314,100 @@ theorem assignAt_mirror {α} (l : List α) (idx : List Int) (v : List α)
   rw [getElem?_reverse_nat l j hj]
 
 
-theorem mirStart_step1 (k : Key) (n : Nat) (h1 : stepOf k = 1) :
-    mirStart k n = (n : Int) - (Py.sliceIndices k.start k.stop 1 n).2.1 := by
-  unfold mirStart
-  rw [h1, Int.ediv_one, Int.mul_one]
-  omega
-
 theorem rangeList_length (s e st : Int) : (Py.rangeList s e st).length = Py.rangeLen s e st := by
   simp [Py.rangeList]
 
-theorem setslice_mirror (l : Bits) (k : Key) (v : Bits) (hpos : negStep k = false) (h0 : k.step ≠ some 0)
-    (hinv : invertedAssign k l.length = false) :
-    setitemSlice .lsb0 l k v = (setitemSlice .msb0 l.reverse k v.reverse).map List.reverse := by
-  have hst := stepOf_pos k hpos h0
-  have hne : k.step.getD 1 ≠ 0 := by unfold stepOf at hst; omega
-  have hr := mirror_renorm k l.length hst
-  have hb := sliceIndices_pos_bounds k.start k.stop (stepOf k) hst l.length
-  simp only [setitemSlice, offsetSliceLsb0_pos k l.length hpos h0, pySet, hne, if_false, List.length_reverse]
-  unfold stepOf at hr hst hb
-  rw [hr]
-  simp only []
-  by_cases h1 : k.step.getD 1 = 1
-  · -- resizing assignment
-    simp only [h1, if_true, Except.map]
-    congr 1
-    have hms := mirStart_step1 k l.length h1
-    have hk : k.step = none ∨ k.step = some 1 := by
-      cases hks : k.step with
-      | none => exact Or.inl rfl
-      | some c => rw [hks] at h1; simp only [Option.getD_some] at h1; rw [h1]; exact Or.inr rfl
-    have hni : ¬ (Py.sliceIndices k.start k.stop 1 l.length).2.1 < (Py.sliceIndices k.start k.stop 1 l.length).1 := by
-      intro hlt
-      have : invertedAssign k l.length = true := by
-        unfold invertedAssign; simp [hk, hlt]
-      rw [this] at hinv; cases hinv
-    rw [h1] at hb
-    unfold mirStop
-    unfold stepOf
-    rw [hms, h1]
-    generalize (Py.sliceIndices k.start k.stop 1 l.length).1 = s at *
-    generalize (Py.sliceIndices k.start k.stop 1 l.length).2.1 = e at *
-    have e1 : (min ((l.length : Int) - e) l.length).toNat = l.length - e.toNat := by omega
-    have e2 : (max ((l.length : Int) - s) (min ((l.length : Int) - e) l.length)).toNat = l.length - s.toNat := by omega
-    have e3 : (max e s).toNat = e.toNat := by omega
-    rw [e1, e2, e3, List.reverse_append, List.reverse_append, List.reverse_reverse, List.reverse_drop, List.reverse_take,
-      List.reverse_reverse, List.length_reverse, List.append_assoc]
-  · -- extended slice
-    simp only [h1, if_false]
-    rw [mirror_rangeList k l.length hst]
-    simp only [List.length_map, List.length_reverse]
-    unfold stepOf
-    split
-    · rfl
-    · rename_i hlen
-      simp only [Except.map]
-      congr 1
-      have hlen' : v.length = (Py.rangeList (Py.sliceIndices k.start k.stop (k.step.getD 1) l.length).1
-          (Py.sliceIndices k.start k.stop (k.step.getD 1) l.length).2.1 (k.step.getD 1)).length := by
-        simpa using hlen
-      exact assignAt_mirror l _ v hlen' (rangeList_nodup _ _ _ hne)
+/-- bounds of the mirrored slice for a step-less / step-1 key: `[n - max stop start, n - start)`. -/
+theorem mirKeyOf_step1 (s e : Int) (n : Nat) (step : Option Int) (hs : 0 ≤ s) (hsn : s ≤ n) (he : 0 ≤ e) (hen : e ≤ n) :
+    (Py.sliceIndices (mirKeyOf s (e - s).toNat 1 n step).start (mirKeyOf s (e - s).toNat 1 n step).stop 1 n).1
+      = (n : Int) - max e s ∧
+    (Py.sliceIndices (mirKeyOf s (e - s).toNat 1 n step).start (mirKeyOf s (e - s).toNat 1 n step).stop 1 n).2.1
+      = (n : Int) - s := by
+  have hp : (1 : Int) > 0 := by omega
+  have hn : ¬ ((1 : Int) < 0) := by omega
+  unfold mirKeyOf
+  by_cases hc : (e - s).toNat = 0
+  · have h2 : ¬ ((n : Int) - s < 0) := by omega
+    simp only [hc, if_true, hp, Py.sliceIndices, hn, if_false, h2]
+    omega
+  · have h2 : ¬ ((n : Int) - s < 0) := by omega
+    have h3 : ¬ ((n : Int) - (s + (((e - s).toNat : Int) - 1) * 1) - 1 < 0) := by omega
+    simp only [hc, if_false, hp, if_true, Py.sliceIndices, hn, h2, h3]
+    omega
 
+theorem mirror_step1 (k : Key) (n : Nat) (h1 : stepOf k = 1) :
+    (Py.sliceIndices (mirKeyOf (nStart k n) (nCount k n) (stepOf k) n k.step).start
+        (mirKeyOf (nStart k n) (nCount k n) (stepOf k) n k.step).stop (stepOf k) n).1
+      = (n : Int) - max (nStop k n) (nStart k n) ∧
+    (Py.sliceIndices (mirKeyOf (nStart k n) (nCount k n) (stepOf k) n k.step).start
+        (mirKeyOf (nStart k n) (nCount k n) (stepOf k) n k.step).stop (stepOf k) n).2.1
+      = (n : Int) - nStart k n := by
+  have hpb := sliceIndices_pos_bounds k.start k.stop (stepOf k) (by omega) n
+  have hcnt : nCount k n = (nStop k n - nStart k n).toNat := by
+    unfold nCount; rw [h1]; exact C01.rangeLen_one _ _
+  rw [hcnt, h1]
+  exact mirKeyOf_step1 (nStart k n) (nStop k n) n k.step hpb.1 hpb.2.1 hpb.2.2.1 hpb.2.2.2
+
+theorem setslice_mirror (l : Bits) (k : Key) (v : Bits) :
+    setitemSlice .lsb0 l k v = (setitemSlice .msb0 l.reverse k v.reverse).map List.reverse := by
+  by_cases hst : stepOf k = 0
+  · have h0 : k.step.getD 1 = 0 := hst
+    simp only [setitemSlice, offsetSliceLsb0_step_zero k l.length hst, pySet, h0, if_true]
+    rfl
+  · have hne : k.step.getD 1 ≠ 0 := hst
+    simp only [setitemSlice, offsetSliceLsb0_eq k l.length hst, pySet, mirKeyOf_step, hne, if_false, List.length_reverse]
+    by_cases h1 : k.step.getD 1 = 1
+    · -- resizing assignment
+      simp only [h1, if_true, Except.map]
+      congr 1
+      obtain ⟨e1, e2⟩ := mirror_step1 k l.length h1
+      have hpb := sliceIndices_pos_bounds k.start k.stop (k.step.getD 1) (by omega) l.length
+      dsimp only [stepOf, nStart, nStop, nCount] at e1 e2 ⊢
+      simp only [h1] at e1 e2 hpb ⊢
+      rw [e1, e2]
+      generalize (Py.sliceIndices k.start k.stop 1 l.length).1 = s at *
+      generalize (Py.sliceIndices k.start k.stop 1 l.length).2.1 = e at *
+      have x1 : ((l.length : Int) - max e s).toNat = l.length - (max e s).toNat := by omega
+      have x2 : (max ((l.length : Int) - s) ((l.length : Int) - max e s)).toNat = l.length - s.toNat := by omega
+      rw [x1, x2, List.reverse_append, List.reverse_append, List.reverse_reverse, List.reverse_drop, List.reverse_take,
+        List.reverse_reverse, List.length_reverse, List.append_assoc]
+    · -- extended slice
+      simp only [h1, if_false]
+      have hm := mirror_rangeList k l.length hst
+      unfold stepOf nStart nStop nCount at hm
+      rw [hm]
+      simp only [List.length_map, List.length_reverse]
+      split
+      · rfl
+      · rename_i hlen
+        simp only [Except.map]
+        congr 1
+        have hlen' : v.length = (Py.rangeList (Py.sliceIndices k.start k.stop (k.step.getD 1) l.length).1
+            (Py.sliceIndices k.start k.stop (k.step.getD 1) l.length).2.1 (k.step.getD 1)).length := by
+          simpa using hlen
+        exact assignAt_mirror l _ v hlen' (rangeList_nodup _ _ _ hne)
+
+theorem setbit_mirror (l : Bits) (k : Key) (b : Bool) :
+    setitemSliceBit .lsb0 l k b = (setitemSliceBit .msb0 l.reverse k b).map List.reverse := by
+  by_cases hst : stepOf k = 0
+  · have h0 : k.step.getD 1 = 0 := hst
+    simp only [setitemSliceBit, offsetSliceLsb0_step_zero k l.length hst, pySetBit, h0, if_true]
+    rfl
+  · have hne : k.step.getD 1 ≠ 0 := hst
+    simp only [setitemSliceBit, offsetSliceLsb0_eq k l.length hst, pySetBit, mirKeyOf_step, hne, if_false,
+      List.length_reverse, Except.map]
+    congr 1
+    have hm := mirror_rangeList k l.length hst
+    unfold stepOf nStart nStop nCount at hm
+    rw [hm]
+    simp only [List.length_map, List.length_reverse]
+    have := assignAt_mirror l (Py.rangeList (Py.sliceIndices k.start k.stop (k.step.getD 1) l.length).1
+        (Py.sliceIndices k.start k.stop (k.step.getD 1) l.length).2.1 (k.step.getD 1))
+      (List.replicate (Py.rangeList (Py.sliceIndices k.start k.stop (k.step.getD 1) l.length).1
+        (Py.sliceIndices k.start k.stop (k.step.getD 1) l.length).2.1 (k.step.getD 1)).length b)
+      (by simp) (rangeList_nodup _ _ _ hne)
+    rw [List.reverse_replicate] at this
+    exact this
 
 theorem reverse_eq_of_getElem? {α} (x y : List α) (hlen : x.length = y.length)
     (h : ∀ i, i < y.length → x[y.length - 1 - i]? = y[i]?) : x.reverse = y := by
@@ -557,53 +605,37 @@ theorem getslice_eq_withstep (m : Mode) (l : Bits) (a b : Option Int) :
   | msb0 => simp only [getslice, getsliceWithstep, getsliceMsb0, pyGet, sliceStep1_eq]
   | lsb0 =>
     simp only [getslice, getsliceWithstep]
-    rw [offsetSliceLsb0_pos ⟨a, b, none⟩ l.length rfl (by simp)]
-    simp only [pyGet, sliceStep1_eq]
+    rw [offsetSliceLsb0_eq ⟨a, b, none⟩ l.length (by simp [stepOf])]
+    simp only [pyGet, mirKeyOf_step, sliceStep1_eq]
 
 theorem getslice2_mirror (l : Bits) (a b : Option Int) :
     getslice .lsb0 l a b = (getslice .msb0 l.reverse a b).map List.reverse := by
   rw [getslice_eq_withstep, getslice_eq_withstep]
-  exact getslice_mirror l ⟨a, b, none⟩ rfl (by simp)
-
-theorem invertedAssign_false_of_le (a b : Int) (n : Nat) (h0 : 0 ≤ a) (hab : a ≤ b) :
-    invertedAssign ⟨some a, some b, none⟩ n = false := by
-  unfold invertedAssign
-  have h1 : ¬ a < 0 := by omega
-  have h2 : ¬ b < 0 := by omega
-  have h3 : ¬ ((1 : Int) < 0) := by omega
-  simp only [Py.sliceIndices, h1, h2, h3, if_false]
-  simp only [true_or, true_and, decide_eq_false_iff_not]
-  omega
+  exact getslice_mirror l ⟨a, b, none⟩
 
 theorem step_zero_raises (m : Mode) (l v : Bits) (a b : Option Int) :
-    (∃ e, getsliceWithstep m l ⟨a, b, some 0⟩ = .error e) ∧ (∃ e, delitemSlice m l ⟨a, b, some 0⟩ = .error e) ∧
-    (∃ e, setitemSlice m l ⟨a, b, some 0⟩ v = .error e) := by
-  have h : offsetSliceLsb0 ⟨a, b, some 0⟩ l.length = .error (.internal "AssertionError") := by
-    simp [offsetSliceLsb0, indices]
+    getsliceWithstep m l ⟨a, b, some 0⟩ = .error .value ∧ delitemSlice m l ⟨a, b, some 0⟩ = .error .value ∧
+    setitemSlice m l ⟨a, b, some 0⟩ v = .error .value := by
+  have h : offsetSliceLsb0 ⟨a, b, some 0⟩ l.length = .error .value := offsetSliceLsb0_step_zero _ _ rfl
   cases m with
-  | msb0 => exact ⟨⟨.value, by simp [getsliceWithstep, pyGet, Py.getSlice]⟩, ⟨.value, by simp [delitemSlice, pyDel]⟩,
-      ⟨.value, by simp [setitemSlice, pySet]⟩⟩
-  | lsb0 => exact ⟨⟨.internal "AssertionError", by simp only [getsliceWithstep, h]⟩,
-      ⟨.internal "AssertionError", by simp only [delitemSlice, h]⟩,
-      ⟨.internal "AssertionError", by simp only [setitemSlice, h]⟩⟩
+  | msb0 => exact ⟨by simp [getsliceWithstep, pyGet, Py.getSlice], by simp [delitemSlice, pyDel], by simp [setitemSlice, pySet]⟩
+  | lsb0 => exact ⟨by simp only [getsliceWithstep, h], by simp only [delitemSlice, h], by simp only [setitemSlice, h]⟩
 
-
-theorem setOp_range_mirror (l : Bits) (b : Bool) (a b' c : Int) (h : setRange (.range a b' c) l.length = false) :
+theorem setOp_range_mirror (l : Bits) (b : Bool) (a b' c : Int) :
     setOp .lsb0 l b (.range a b' c) = (setOp .msb0 l.reverse b (.range a b' c)).map List.reverse := by
   simp only [setOp, List.length_reverse]
   by_cases hc : c = 0
   · simp only [hc, if_true]; rfl
   · simp only [hc, if_false]
-    simp only [setRange, hc, ne_eq, not_false_eq_true, decide_true, Bool.true_and] at h
     cases hh : (Py.rangeList a b' c).head? with
     | none => simp only []; exact setMany_mirror b _ l
     | some first =>
       cases hl : (Py.rangeList a b' c).getLast? with
       | none => simp only []; exact setMany_mirror b _ l
       | some last =>
-        rw [hh, hl] at h
-        simp only [decide_eq_false_iff_not] at h
-        simp only [h, if_false]
-        exact setMany_mirror b _ l
+        simp only []
+        split
+        · exact setbit_mirror l _ b
+        · exact setMany_mirror b _ l
 
 end BM.C12
